@@ -8,7 +8,7 @@ EXTRA_CONFIGS = ["default", "nodefault", "nightly"]
 def extra(pid, rule_names):
     res = []
     for cfg in EXTRA_CONFIGS:
-        rs = props.eval_rules(rule_names, cfg)
+        rs = props.eval_rules(rule_names, cfg, pid)
         for r in rs:
             r.rule = "%s@%s" % (r.rule, cfg)
             for v in r.violations:
